@@ -280,6 +280,14 @@ type plan struct {
 	Windows   []window  `json:"windows,omitempty"`
 	Requests  []string  `json:"stress_requests,omitempty"` // stress: methods the requester goroutine cycles through while the publisher runs
 	WaitEvery int       `json:"stress_wait_every,omitempty"`
+	Backlog   *backlog  `json:"backlog,omitempty"` // backlog stress: Pkts is a cycle, Requests the method cycle
+}
+
+func (pl *plan) rcvBuf() int {
+	if pl.Backlog != nil {
+		return pl.Backlog.RcvBuf
+	}
+	return 0
 }
 
 func (pl *plan) wire(ch int) int {
